@@ -1,6 +1,8 @@
 (* C18 -- Schedule transfers end cleanly under faults.  Statements only. *)
 From Coq Require Import List Bool Arith.
 From RV Require Import M_Transfer P_Transfer.
+From Coq Require Import ZArith.
+From RV Require M_SchedCache P_SchedCache.
 Import ListNotations.
 
 (* whatever faults hit a transfer (a failing exchange, the caller's timeout at any await), it never
@@ -54,3 +56,26 @@ Proof. exact hear_non_fragments. Qed.
    (so the version bookkeeping theorems above apply to whatever is overheard) *)
 Theorem C18_only_fragments_are_stored : forall es ps last, hear_all (ps, last) es = vfeed ps last (flat_map frag_of es).
 Proof. exact hear_is_vfeed. Qed.
+
+(* "ends with the controller's schedule or an error; a transfer that fails leaves nothing behind", for the schedule the zone itself remembers
+   (M_SchedCache: Schedule._full_schedule / _sched_ver / _global_ver and the system's cached change counter): AFTER ANY HISTORY of fetches and
+   WRITES that fail at any exchange (before the controller has the whole set; after it has committed, the last reply lost; at the version query
+   that follows), changes made on the controller by others, and overheard counters -- a forced fetch that returns, returns the schedule the
+   controller holds ... *)
+Theorem C18_forced_fetch_is_current : forall ops c ios g r,
+  let s := fst (M_SchedCache.run false M_SchedCache.init ops) in
+  snd (M_SchedCache.fetch true c ios g s) = M_SchedCache.Returned r -> r = Some (M_SchedCache.csched s).
+Proof. exact P_SchedCache.forced_fetch_is_current. Qed.
+(* ... because in every reachable state the zone's readings of the change counter never run ahead of the controller's, and whenever its version
+   says "current" the schedule it remembers IS the controller's *)
+Theorem C18_cache_invariant : forall ops, P_SchedCache.Inv (fst (M_SchedCache.run false M_SchedCache.init ops)).
+Proof. intros ops. apply P_SchedCache.run_inv, P_SchedCache.Inv_init. Qed.
+(* the slip "remember the new schedule BEFORE sending it": fetch, a write that fails early, a forced fetch -- the zone reports the schedule that
+   never reached the controller (2 while the controller holds 1); the code as it is reports the controller's *)
+Theorem C18_early_assignment_refuted :
+  snd (M_SchedCache.run true M_SchedCache.init P_SchedCache.slip_ops) =
+    [M_SchedCache.Returned (Some 1%Z); M_SchedCache.Raised; M_SchedCache.Returned (Some 2%Z)] /\
+  M_SchedCache.csched (fst (M_SchedCache.run true M_SchedCache.init P_SchedCache.slip_ops)) = 1%Z /\
+  snd (M_SchedCache.run false M_SchedCache.init P_SchedCache.slip_ops) =
+    [M_SchedCache.Returned (Some 1%Z); M_SchedCache.Raised; M_SchedCache.Returned (Some 1%Z)].
+Proof. exact P_SchedCache.early_assignment_refuted. Qed.
